@@ -7,7 +7,11 @@ REV=""
 if [ "${1:-}" = "-R" ]; then REV="-R"; shift; fi
 cd /repo
 if ! git diff --quiet; then echo "refusing: /repo has uncommitted changes" >&2; exit 2; fi
-if ! git apply $REV --check "$PATCH" 2>/dev/null; then echo "PATCH-DOES-NOT-APPLY $PATCH"; exit 3; fi
+if ! git apply $REV --check "$PATCH" 2>/dev/null; then
+  # the repairs made after a change was written may have touched its context: use the rebased variant kept next to it
+  ALT="$(ls "$(dirname "$PATCH")"/patch-rebased-on-*.diff 2>/dev/null | tail -1)"
+  if [ -z "$REV" ] && [ -n "$ALT" ] && git apply --check "$ALT" 2>/dev/null; then echo "(using $(basename "$ALT"))"; PATCH="$ALT"; else echo "PATCH-DOES-NOT-APPLY $PATCH"; exit 3; fi
+fi
 git apply $REV "$PATCH"
 trap 'git -C /repo checkout -- . ; git -C /repo clean -fdq -- tests 2>/dev/null' EXIT
 for id in "$@"; do
